@@ -27,6 +27,9 @@ JSignBuild(e) ==
      R("C06", "library_signed_structure_verifies", built /\ matching, r.verify_ok, cls),
      R("C06", "library_signature_valid_under_matching_key", built /\ r.serok /\ matching, r.indep_ok, cls),
      R("C06", "still_verifies_after_serialise_and_parse", built /\ r.serok /\ matching, r.rt_parse_ok /\ r.rt_verify_ok, cls),
+     \* every read-only method of the structure and of the parts handed to the constructor called once (validity queries included):
+     \* it verifies and serialises as before
+     R("C06", "still_verifies_after_queries_on_it_and_its_parts", built /\ r.serok /\ matching /\ r.verify_ok /\ r.aq_done, r.aq_verify /\ r.aq_ser_same, cls),
      \* a signing constructor never hands back a structure around an identity of a prohibited type (Ed25519ph / RSA / ML-KEM for Destinations, those and RedDSA for routers)
      R("C09", "constructor_never_returns_prohibited", built /\ "declst" \in DOMAIN m,
        IF e.fn = "NewRouterInfo" THEN ~RouterProhibited(declared, m.ct) ELSE ~DestProhibited(declared, m.ct), cls \o "/decl=" \o ToString(declared)),
@@ -39,14 +42,15 @@ JSignBuild(e) ==
                        ELSE IF m.innerlen < 61 THEN "innershort" ELSE "keylen")),
      R("C02", "signed_constructor_output_decodes_to_model", built /\ r.serok /\ e.fn = "NewRouterInfo",
        LET d == RefRouterInfo(r.ser) IN
-       d.ok /\ d.consumed = Len(r.ser) /\ d.naddr = m.naddr /\ d.optPairs = SortPairs(m.pairs) /\ d.id.st = declared, cls),
+       d.ok /\ d.consumed = Len(r.ser) /\ d.naddr = m.naddr + (IF "rawaddrs" \in DOMAIN m THEN Len(m.rawaddrs) ELSE 0) /\ d.optPairs = SortPairs(m.pairs) /\ d.id.st = declared, cls),
      R("C15", "router_info_published_date_exact", built /\ e.fn = "NewRouterInfo" /\ ~m.pubneg /\ FitsInt64(TimeToDate(m.pubsec, m.pubns)) /\ "published" \in DOMAIN r,
        r.published = PadTo(TimeToDate(m.pubsec, m.pubns), 8), cls),
      R("C02", "signed_leaseset_decodes_to_model", built /\ r.serok /\ e.fn = "NewLeaseSet",
        LET d == RefLeaseSet(r.ser) IN d.ok /\ d.consumed = Len(r.ser) /\ d.n = m.nleases /\ d.d.st = declared, cls),
      R("C02", "signed_leaseset2_decodes_to_model", built /\ r.serok /\ e.fn = "NewLeaseSet2",
        LET d == RefLeaseSet2(r.ser) IN
-       d.ok /\ d.consumed = Len(r.ser) /\ d.nk = m.nkeys + (IF "elgkeys" \in DOMAIN m THEN 1 ELSE 0) /\ d.nl = m.nleases /\ d.optPairs = SortPairs(m.pairs) /\ d.h.flags = m.flags /\ d.h.off = m.off, cls),
+       d.ok /\ d.consumed = Len(r.ser) /\ d.nk = m.nkeys + (IF "elgkeys" \in DOMAIN m THEN 1 ELSE 0) /\ d.nl = m.nleases
+       /\ (IF "rawpairs" \in DOMAIN m THEN SortPairs(d.optPairs) = SortPairs(m.rawpairs) ELSE d.optPairs = SortPairs(m.pairs)) /\ d.h.flags = m.flags /\ d.h.off = m.off, cls),
      R("C02", "signed_encrypted_leaseset_decodes_to_model", built /\ r.serok /\ e.fn = "NewEncryptedLeaseSet",
        LET d == RefEncryptedLeaseSet(r.ser) IN
        d.ok /\ d.consumed = Len(r.ser) /\ d.st = e.st /\ d.innerLen = m.innerlen /\ d.flags = m.flags /\ d.off = m.off
